@@ -54,7 +54,7 @@ CHECKS["C02"] = {
 
 CHECKS["C06"] = {
     "level": "exploration",
-    "jobs": [J("typedirected", "c06", "TestTypeDirected", 4000, 100000, 12), J("lazyretry", "c06", "TestLazyRetry", 800, 15000, 4)],
+    "jobs": [J("typedirected", "c06", "TestTypeDirected", 4000, 100000, 12), J("lazyretry", "c06", "TestLazyRetry", 800, 15000, 4), J("failingcandidates", "c06", "TestFailingCandidates", 1000, 20000, 4)],
     "assumptions": [
         "func:\"M,returns=..\" values are drawn from plain non-numeric strings (result comparison after the container's literal parsing is then plain string equality)",
         "which of several equally admissible components a single-valued point receives is not asserted here (C08/C10)",
@@ -140,6 +140,8 @@ CHECKS["C10"] = {
         J("populations", "c10", "TestPopulations", 500, 8000, 8),
         J("graphs", "c10", "TestGraphs", 400, 6000, 8),
         J("scanners", "c10", "TestScanners", 300, 5000, 8),
+        J("duplicatepair", "c10", "TestDuplicatePair", 200, 3000, 2),
+        J("runnerorder", "c10", "TestRunnerOrderOutcome", 200, 3000, 2),
     ],
     "assumptions": [
         "registration order and the registries' enumeration order are drawn explicitly (verif hook); Go map order inside the container and the goroutine schedule of the scan phase vary freely between the repeated runs and are thereby sampled, not controlled",
